@@ -74,6 +74,13 @@ def oracle(suite, args, out):
             if abs(o[x][ch] - 255 * f) > tol + Fr(1, 1000):
                 return "mode %s %s channel %d: wrote %d, formula gives %.3f (src %r over dst %r)" % (
                     MODES[c["mode"]], "lowp" if lowp else "highp", ch, o[x][ch], float(255 * f), c["color"], d)
+        ns = spec_nonsep(c["mode"], src[:3], [Fr(d[k], 255) for k in range(3)], src[3], da)
+        if ns is not None:
+            for ch in range(3):
+                f = min(max(ns[ch], Fr(0)), Fr(1))
+                if abs(o[x][ch] - 255 * f) > Fr(2) + Fr(1, 1000):
+                    return "NONSEP mode %s channel %d: wrote %d, the non-separable formula gives %.3f (src %r over dst %r)" % (
+                        MODES[c["mode"]], ch, o[x][ch], float(255 * f), c["color"], d)
         fa = spec_alpha(c["mode"], src[3], da)
         if abs(o[x][3] - 255 * fa) > tol + Fr(1, 1000):
             return "mode %s %s alpha: wrote %d, formula gives %.3f (src %r over dst %r)" % (
